@@ -280,6 +280,8 @@ class Elf(BinFormat):
         # read the section:
         self.__file.seek(section.sh_offset)
         data = self.__file.read(section.sh_size)
+        if len(data) != section.sh_size:
+            raise ElfError("symbol table exceeds the file")
         # and parse it into Sym objects:
         l = section.sh_entsize
         if (section.sh_size % l) != 0:
@@ -308,6 +310,8 @@ class Elf(BinFormat):
             return None
         self.__file.seek(section.sh_offset)
         data = self.__file.read(section.sh_size)
+        if len(data) != section.sh_size:
+            raise ElfError("relocation table exceeds the file")
         l = section.sh_entsize
         if (section.sh_size % l) != 0:
             raise ElfError("relocation table size mismatch")
@@ -333,6 +337,8 @@ class Elf(BinFormat):
         # read the section:
         self.__file.seek(section.sh_offset)
         data = self.__file.read(section.sh_size)
+        if len(data) != section.sh_size:
+            raise ElfError("dynamic section exceeds the file")
         # and parse it into Dyn objects:
         l = section.sh_entsize
         if (section.sh_size % l) != 0:
